@@ -18,6 +18,7 @@ import numpy as np
 
 sys.path.insert(0, os.path.join(os.path.dirname(os.path.abspath(__file__)),
                                 "..", "pylib"))
+sys.path.insert(0, os.path.dirname(os.path.abspath(__file__)))
 import calgen  # noqa: E402
 import physics  # noqa: E402
 import runner as R  # noqa: E402
@@ -245,8 +246,18 @@ def work(chunk_id, payload):
             ("m" if rng.random() < 0.5 else "ab")
         noisy = tr in ("entry", "order", "abscale", "unrelated", "split_f",
                        "e12_ue14", "shared")
-        A, kappa = base_scenario(rng, ctype, r, c, F, form, noisy,
-                                 offgrid=(tr == "shared"))
+        if tr == "order" and rng.random() < 0.3:
+            # the analytic through / reflect / line case (two unknowns): the
+            # three standards in every order
+            import C02
+            ctype = ["T8", "U8", "TE10", "UE10"][int(rng.integers(0, 4))]
+            r = c = p = 2
+            A, _unk = C02.trl_scenario(rng, ctype, F)
+            kappa = 100.0
+            cnt["order_trl_pairs"] = cnt.get("order_trl_pairs", 0) + 1
+        else:
+            A, kappa = base_scenario(rng, ctype, r, c, F, form, noisy,
+                                     offgrid=(tr == "shared"))
         if A is None:
             cnt["skipped_not_well_determined"] = cnt.get(
                 "skipped_not_well_determined", 0) + 1
